@@ -619,7 +619,7 @@ func (g *Gen) frameObligation() {
 		_ = env
 		var tags []string
 		for tag := range g.sc.tagSort {
-			if strings.HasPrefix(tag, "K:") || strings.HasPrefix(tag, "V!") || tag == "!frontier" {
+			if strings.HasPrefix(tag, "K:") || strings.HasPrefix(tag, "VR:") || strings.HasPrefix(tag, "V!") || tag == "!frontier" {
 				continue
 			}
 			tags = append(tags, tag)
